@@ -11,6 +11,7 @@ import Mathlib.Algebra.Order.BigOperators.Group.List
 import Mathlib.Tactic
 import Dtaiverif.Proofs.Dist
 import Dtaiverif.Proofs.Dba
+import Dtaiverif.Proofs.Path
 
 namespace Dtai
 
@@ -158,5 +159,33 @@ theorem dba_step_nonincreasing (t window : Nat) (p : K) (hp : 0 ≤ p) (c c' : N
         exact_mod_cast add_le_add h2 le_rfl
     _ = (L.map fun a => (dbaGrid t a.m window p c a.s).costRev a.path).sum := (sum_costRev t window p c L).symm
     _ = (L.map fun a => dtwSpec (dbaGrid t a.m window p c a.s)).sum := h3
+
+/-- without psi-relaxation the distance is the value of the last cell -/
+theorem dtwSpec_nopsi {α : Type} [LinearOrderedAddCommMonoidWithTop α] (g : Grid α) (h1 : g.psi1e = 0) (h2 : g.psi2e = 0) :
+    dtwSpec g = D g g.r g.c := by
+  rw [dtwSpec_eq]
+  simp [endCells, h1, h2, minList]
+
+/-- **The alignment the step traces is admissible and optimal** (C05 applied to the DBA grid): for a
+non-empty average and series with a finite distance, the path traced back from the last cell satisfies
+the hypothesis `hvalid` of `dba_step_nonincreasing`. -/
+theorem dba_traced_alignment (t m window : Nat) (p : K) (hp : 0 ≤ p) (c s : Nat → K) (ht : 1 ≤ t) (hm : 1 ≤ m)
+    (hfin : dtwSpec (dbaGrid t m window p c s) ≠ ⊤) :
+    ∃ rest,
+      backtrack (D (dbaGrid t m window p c s)) (dbaGrid t m window p c s).pen (t + m) t m = (t - 1, m - 1) :: rest ∧
+      (dbaGrid t m window p c s).ValidRev ((t - 1, m - 1) :: rest) ∧
+      (dbaGrid t m window p c s).EndOk (t - 1, m - 1) ∧
+      (dbaGrid t m window p c s).costRev ((t - 1, m - 1) :: rest) = dtwSpec (dbaGrid t m window p c s) := by
+  have hn := dbaGrid_nonneg t m window p hp c s
+  have hspec : dtwSpec (dbaGrid t m window p c s) = D (dbaGrid t m window p c s) t m :=
+    dtwSpec_nopsi (dbaGrid t m window p c s) rfl rfl
+  obtain ⟨t', rfl⟩ : ∃ t', t = t' + 1 := ⟨t - 1, by omega⟩
+  obtain ⟨m', rfl⟩ : ∃ m', m = m' + 1 := ⟨m - 1, by omega⟩
+  rw [hspec] at hfin
+  obtain ⟨rest, hbt, hv, hc⟩ := backtrack_valid (dbaGrid (t' + 1) (m' + 1) window p c s) hn t' m' hfin
+  refine ⟨rest, ?_, by simpa using hv, ?_, by rw [hspec]; simpa using hc⟩
+  · have : t' + 1 + (m' + 1) = t' + m' + 2 := by omega
+    rw [this]; simpa using hbt
+  · simp [Grid.EndOk, dbaGrid]
 
 end Dtai
